@@ -72,13 +72,12 @@ class TLCOut:
         return res
 
     def printed_tuples(self, tag):
-        """Lines of the form <<"TAG", a, b, ...>> -> list of raw argument strings."""
+        """<<"TAG", a, b, ...>> printed with PrintT -> list of raw argument strings.  TLC's pretty printer breaks long
+        tuples over several lines, so the whole output is scanned, not single lines (arguments are scalars)."""
         res = []
-        pat = re.compile(r'^<<"%s"(?:, (.*))?>>$' % re.escape(tag))
-        for line in self.stdout.splitlines():
-            m = pat.match(line.strip())
-            if m:
-                res.append(m.group(1) or "")
+        pat = re.compile(r'<<\s*"%s"\s*(?:,\s*(.*?))?\s*>>' % re.escape(tag), re.S)
+        for m in pat.finditer(self.stdout):
+            res.append(re.sub(r"\s*\n\s*", " ", m.group(1) or ""))
         return res
 
     def coverage_counts(self):
